@@ -217,6 +217,27 @@ CLAIMED.update({
          ADD_TRUST, 'DESIGN.md section 5 C19, Appendix E'),
 })
 
+LMF_TRUST = ('Trusted: Coq kernel + vm_compute; translator of the per-version element/attribute tables, DOCTYPE map and DC '
+             'namespace of wn/lmf.py into Gen/LmfTables.v; expat (tokenisation, well-formedness, entity decoding, attribute-value '
+             'and end-of-line normalisation) is not modelled: the model starts from the element tree expat reports, and the '
+             'harness obtains that tree with its own expat run; xml.etree serialisation and quoteattr are modelled exactly '
+             '(byte-for-byte against real dumps); correspondence harness, document generator/mutator and oracles (Python).')
+CLAIMED.update({
+ 'C20': ('Coq proof over a Gallina model of wn.lmf.load (read_header, the expat handlers driven by the per-version tables '
+         'regenerated from the source, the _validate functions) written from wn/lmf.py; tied to the code by differential '
+         'correspondence on generated documents and single-fault mutations of them (loaded resource or error class must agree); '
+         'an oracle on the real code checks that every mutated document is rejected by load and by add with the database '
+         'unchanged, and that scan_lexicons agrees with load on accepted documents',
+         'Partial. Theorems (closed under the global context): the header is accepted exactly for the XML declaration followed by '
+         'a DOCTYPE of a supported version, and dump always writes such a header; an element the declared version does not allow '
+         '(incl. elements of other versions), a repeated single child or a missing id anywhere in the document makes load fail. '
+         'Not proved: ill-formed XML (expat\'s domain), the remaining attribute-level requirements (decided by correspondence on '
+         'mutations: missing required attributes, bad Count text, ...), and "scan_lexicons agrees with load" (scan_lexicons is a '
+         'regular-expression scanner over raw text that is not modelled; decided by the oracle only). "Database unchanged" is C06\'s '
+         'atomicity theorem plus the fact that add starts from the loaded resource.',
+         LMF_TRUST, 'DESIGN.md section 5 C20, Appendix E'),
+})
+
 NOT_YET = 'not covered yet in this round: model, theorems and correspondence are planned (DESIGN.md sections 5 and 9) but no sound check is registered, so nothing is claimed'
 
 def main():
